@@ -746,5 +746,135 @@ theorem fullLoop_ok_valid : ∀ (ss : List (CommitSig σ)) (idx : Nat) (tally t 
             · cases h
             · exact ih _ _ _ h k s v hs hv' hf
 end
-end Tmv.CommitVerify
+/-! ### light ⇒ trusting; subsets of positions -/
 
+theorem findByAddr_distinct : ∀ (vs : List Validator) (k i : Nat) (v : Validator),
+    (vs.map (·.addr)).Nodup → vs[i]? = some v → findByAddr vs v.addr k = some (k + i, v) := by
+  intro vs; induction vs with
+  | nil => intro k i v _ h; simp at h
+  | cons w vs ih =>
+    intro k i v hd h
+    simp only [List.map_cons, List.nodup_cons] at hd
+    cases i with
+    | zero =>
+      simp only [List.getElem?_cons_zero, Option.some.injEq] at h; subst h
+      simp [findByAddr]
+    | succ i =>
+      simp only [List.getElem?_cons_succ] at h
+      have hm : v.addr ∈ vs.map (·.addr) := List.mem_map.mpr ⟨v, List.mem_of_getElem? h, rfl⟩
+      have hne : ¬ w.addr = v.addr := fun e => hd.1 (e ▸ hm)
+      simp only [findByAddr, if_neg hne]
+      rw [ih (k + 1) i v hd.2 h]; congr 2; omega
+
+theorem safeMul_no_overflow {a b : Int} (ha : 0 ≤ a) (hb : 0 ≤ b) (h : a * b ≤ maxInt64) :
+    (safeMul a b).2 = false := by
+  unfold safeMul
+  by_cases h0 : a = 0 ∨ b = 0
+  · simp [h0]
+  · have ha' : ¬ a < 0 := by omega
+    have hb' : ¬ b < 0 := by omega
+    have hbpos : 0 < b := by omega
+    simp only [if_neg h0, if_neg ha', if_neg hb']
+    have hle : a ≤ maxInt64 / b := (Int.le_ediv_iff_mul_le hbpos).mpr h
+    rw [Int.tdiv_eq_ediv_of_nonneg (by decide)]
+    have : ¬ a > maxInt64 / b := by omega
+    simp [this]
+
+section
+variable {σ : Type} (sigOK : Nat → SignBytes → σ → Bool) (vs : List Validator) (chainID : String)
+  (c : Commit σ)
+
+/-- every for-block slot carries the address of the validator of its position -/
+def AddrConsistent : Prop :=
+  ∀ (i : Nat) (v : Validator) (s : CommitSig σ), vs[i]? = some v → c.sigs[i]? = some s →
+    s.flag = flagCommit → s.addr = v.addr
+
+theorem trustLoop_of_lightLoop (hd : (vs.map (·.addr)).Nodup) (hc : AddrConsistent vs c)
+    (needed : Int) :
+    ∀ (ss : List (CommitSig σ)) (idx : Nat) (seen : List (Nat × Nat)) (tally : Int),
+      (∀ k, ss[k]? = c.sigs[idx + k]?) → (∀ p ∈ seen, p.1 < idx) →
+      lightLoop sigOK vs chainID c needed ss idx tally = .error .ok →
+      trustLoop sigOK vs chainID c needed ss idx seen tally = .error .ok := by
+  intro ss; induction ss with
+  | nil => intro idx seen tally _ _ h; simp [lightLoop] at h
+  | cons s ss ih =>
+    intro idx seen tally hal hlt h
+    have hs : c.sigs[idx]? = some s := by have := hal 0; simpa using this.symm
+    have hal' : ∀ k, ss[k]? = c.sigs[idx + 1 + k]? := by
+      intro k; have := hal (k + 1); simp only [List.getElem?_cons_succ] at this; rw [this]; congr 1; omega
+    have hlt' : ∀ p ∈ seen, p.1 < idx + 1 := fun p hp => Nat.lt_succ_of_lt (hlt p hp)
+    simp only [lightLoop] at h
+    simp only [trustLoop]
+    by_cases hf : s.flag ≠ flagCommit
+    · simp only [if_pos hf] at h ⊢; exact ih _ _ _ hal' hlt' h
+    · simp only [if_neg hf] at h ⊢
+      have hf' : s.flag = flagCommit := by simpa using hf
+      cases hv : vs[idx]? with
+      | none => simp [hv] at h
+      | some v =>
+        simp only [hv] at h
+        have ha : s.addr = v.addr := hc idx v s hv hs hf'
+        have hfind := findByAddr_distinct vs 0 idx v hd hv
+        simp only [Nat.zero_add] at hfind
+        rw [ha, hfind]
+        have hlook : seen.lookup idx = none := by
+          rw [List.lookup_eq_none_iff]; intro p hp
+          have := hlt p hp
+          simp; omega
+        simp only [hlook]
+        cases hsb : voteSignBytes chainID c s with
+        | error p =>
+          simp only [hsb] at h
+          injection h with h; subst h
+          exact absurd rfl (voteSignBytes_ne_notEnough chainID c hsb).2
+        | ok sb =>
+          simp only [hsb] at h ⊢
+          by_cases hok : (!sigOK v.key sb s.sig) = true
+          · simp [hok] at h
+          · simp only [if_neg hok] at h ⊢
+            by_cases hgt : wrap64 (tally + v.power) > needed
+            · simp only [if_pos hgt]
+            · simp only [if_neg hgt] at h ⊢
+              refine ih _ _ _ hal' ?_ h
+              intro p hp; rcases List.mem_cons.mp hp with rfl | hp
+              · simp
+              · exact hlt' p hp
+end
+
+theorem pickedPower_erase (vs : List Validator) : ∀ (F : List Nat) (j : Nat), j ∈ F →
+    pickedPower vs F = powerAt vs j + pickedPower vs (F.erase j) := by
+  intro F; induction F with
+  | nil => intro j h; simp at h
+  | cons a F ih =>
+    intro j h
+    by_cases e : a = j
+    · subst e; simp [pickedPower]
+    · have hj : j ∈ F := by
+        rcases List.mem_cons.mp h with h | h
+        · exact absurd h.symm e
+        · exact h
+      have : (a :: F).erase j = a :: F.erase j := by simp [e]
+      rw [this]
+      have := ih j hj
+      simp only [pickedPower, List.map_cons, List.sum_cons] at this ⊢
+      omega
+
+/-- distinct positions inside `F` never carry more than `F` -/
+theorem pickedPower_subset_le {vs : List Validator} (hnn : NonNeg vs) :
+    ∀ (js F : List Nat), js.Nodup → (∀ j ∈ js, j ∈ F) → pickedPower vs js ≤ pickedPower vs F := by
+  intro js; induction js with
+  | nil => intro F _ _; simpa [pickedPower] using pickedPower_nonneg hnn F
+  | cons j js ih =>
+    intro F hnd hsub
+    rw [List.nodup_cons] at hnd
+    have hj : j ∈ F := hsub j (by simp)
+    rw [pickedPower_erase vs F j hj]
+    have := ih (F.erase j) hnd.2 (by
+      intro k hk
+      have hne : k ≠ j := fun e => hnd.1 (e ▸ hk)
+      exact (List.mem_erase_of_ne hne).mpr (hsub k (by simp [hk])))
+    simp only [pickedPower, List.map_cons, List.sum_cons] at this ⊢
+    omega
+
+
+end Tmv.CommitVerify
